@@ -637,6 +637,12 @@ class SpecEval:
                 return eng.has_type(v.term, ty, self.st)
             if f == "dict_wf":
                 return eng.dict_wf(self.st, self._val(n.args[0]))
+            if f in ("unchanged_list", "unchanged_dict"):
+                # the container object has exactly the contents it had at function entry
+                assert self.entry is not None
+                r = as_r(self._val(n.args[0]).term)
+                keys = ("llen", "lel") if f == "unchanged_list" else ("dhas", "dval", "dsize")
+                return z3.And([z3.Select(self.st.h(k), r) == z3.Select(self.entry.h(k), r) for k in keys])
             if f == "old":
                 assert self.entry is not None
                 return self.with_state(self.entry)._bool(n.args[0])
@@ -905,7 +911,7 @@ class SpecEval:
                 return st.ghosts[f](self, *args)
             if f in eng.reg.spec_fns:
                 return self._spec_call(f, n.args, want_bool=False)
-            if f in ("implies", "iff", "all_int", "any_int", "all_val", "any_val", "all_ref", "any_ref", "isinstance", "type_is", "fresh", "is_int", "is_none", "is_str", "is_ref", "allocated", "old_allocated", "has_type", "dict_wf"):
+            if f in ("implies", "iff", "all_int", "any_int", "all_val", "any_val", "all_ref", "any_ref", "isinstance", "type_is", "fresh", "is_int", "is_none", "is_str", "is_ref", "allocated", "old_allocated", "has_type", "dict_wf", "unchanged_list", "unchanged_dict"):
                 return SV(mk_bool(self._bool(n)), T.BOOL)
         if isinstance(n.func, ast.Attribute):
             m = n.func.attr
